@@ -184,3 +184,48 @@ Definition src_seq_order_check (n : nat) : bool :=
   | _ => false
   end.
 
+(* ---- EpochRandomSampler.get_samples_for_epoch_ignoring_distributed ------------------------------------
+   `rs = np.random.RandomState((self.base_seed, epoch)); shuffled = rs.permutation(self.total); return iter(shuffled)`.
+   NumPy is an oracle [perm seed epoch n] = np.random.RandomState((seed, epoch)).permutation(n) (as a list); the
+   generator object is the tagged value ($rs, seed, epoch).  What the tie fixes: WHICH permutation is asked for - the one
+   of (base_seed, epoch) over exactly self.total items, whatever effective_total, rank and world size are. *)
+Definition ext_rs (perm : Z -> Z -> nat -> list nat) (f : string) (args : list val) (kw : list (string * val))
+  (st : state) : outcome val :=
+  if is f "np.random.RandomState" then
+    match args with
+    | [VTuple [VInt s; VInt e]] => Ok (VTuple [VStr "$rs"; VInt s; VInt e]) st
+    | _ => Stuck "RandomState"
+    end
+  else if is f "$method.permutation" then
+    match args with
+    | [VTuple [VStr "$rs"; VInt s; VInt e]; VInt n] =>
+        if Z.leb 0 n then Ok (vnats (perm s e (Z.to_nat n))) st else Exc "ValueError" st
+    | _ => Stuck "permutation"
+    end
+  else Stuck ("ext_rs: " ++ f).
+
+Definition rand_self (seed : Z) (s : sampler) : val :=
+  VDict [(VStr "effective_total", zn (eff s)); (VStr "total", zn (total s)); (VStr "epoch", zn (epoch s));
+         (VStr "_rank", zn (rank s)); (VStr "_world_size", zn (world s)); (VStr "base_seed", VInt seed)].
+
+(* executable: the interpreted method on the sampler the model constructs, NumPy's answer for [total] items supplied
+   (any other request is answered with the empty list), compared with what the implementation returned *)
+Definition src_rand_order_check (n : nat) (dist : option (nat * nat)) (m : uneven) (e0 : nat) (seed : Z) (e : nat)
+  (order observed : list nat) : bool :=
+  match init n dist m e0 with
+  | None => true
+  | Some s =>
+      match Interp.run (ext_rs (fun _ _ k => if Nat.eqb k n then order else [])) ers_order
+              [("self", rand_self seed s); ("epoch", zn e)] with
+      | Ok (VList l) _ => match nats_of l with Some l' => list_eqb l' observed | None => false end
+      | _ => false
+      end
+  end.
+
+(* names used by the statements in Properties.v (which opens no string scope) *)
+Definition k_self : string := "self".
+Definition k_epoch : string := "epoch".
+Definition k_rs : string := "rs".
+Definition k_shuffled : string := "shuffled".
+Definition rs_tag : val := VStr "$rs".
+
